@@ -66,7 +66,10 @@ def run(tier, seed):
                        'its recovery, times non-decreasing, and every node is the target of at most one entry (index function) - hence a forest rooted at the initial nodes. '
                        'Gillespie_SIR with return_full_data=True: the main loop carries, on top of the candidate-set invariants, "the first k entries are the initial infections; every later entry (t,u,v) goes along an edge, '
                        'v\'s recorded infection time is t, u was infected not after t and has not recovered before t; times non-decreasing; no node is the target of two entries; #entries = k + #infections", '
-                       'and exactly that list is handed to Simulation_Investigation. Constructor binding for every simulator. SIS, generic and discrete simulators are decided only by the bounded native stand-in.')
+                       'and exactly that list is handed to Simulation_Investigation. Gillespie_SIS with return_full_data=True: per node the lists of infection / recovery times alternate inside [tmin, now] and agree with the status; '
+                       'every sourced entry goes along an edge and names, through ghost index maps, the infection of its target at that time (not the initial one) and an infection of its source that covers that time; '
+                       'two entries never name the same infection; #sourced entries = #infection events (from the rows); exactly these objects are handed on. '
+                       'Constructor binding for every simulator. fast_SIS, fast_nonMarkov_SIS, generic and discrete simulators are decided only by the bounded native stand-in.')
     rep.assumptions += ['queue rule and heapq contract as in C04/C11', 'Simulation_Investigation.transmissions() / transmission_tree() return the stored list / its sourced entries (checked natively)']
-    rep.not_covered += ['unbounded contracts for the transmissions of Gillespie_SIS (full-data path), fast_SIS, fast_nonMarkov_SIS, Gillespie_simple_contagion, discrete simulators; Gillespie_SIR full-data path with rho / single-node spellings']
+    rep.not_covered += ['unbounded contracts for the transmissions of fast_SIS, fast_nonMarkov_SIS, Gillespie_simple_contagion, discrete simulators; the rho / single-node / default spellings of the Gillespie full-data paths are verified in the thorough tier only']
     return rep, util.native_replayer
